@@ -329,10 +329,13 @@ package builder
 //@   props C03 C13
 // C03: the nested position is always converted through the generator (method lookup + rules): a position without
 // rule at any depth fails the whole method -- it is never skipped or passed through unconverted
-//@   ensures@C03 err == nil ==> reached("gen.Build#1")
+//@   ensures@C03,C04 err == nil ==> reached("gen.Build#1")
 //@   propagates
 // C07: pointer/underlying steps pass the path on unchanged
 //@   at@C07 call gen.Build#* assert same(arg4, errPath)
+// C01 (F14): when the target is converted through its underlying type, the value returned with an error is already
+// fixed (a value of the NAMED type): the result variable of the underlying conversion is not assignable to it
+//@   at@C01 call gen.Build#1 assert arg3 != target ==> ctx.TargetVar != nil
 //@   requires@C13 self != nil
 //@   requires@C13 GenInv(gen)
 //@   ensures@C13 GenInv(gen)
@@ -401,7 +404,7 @@ package builder
 //@   props C03
 // C03: the nested position is always converted through the generator (method lookup + rules): a position without
 // rule at any depth fails the whole method -- it is never skipped or passed through unconverted
-//@   ensures@C03 err == nil ==> reached("gen.Build#1")
+//@   ensures@C03,C04 err == nil ==> reached("gen.Build#1")
 //@   at@C03 call gen.Build#1 assert arg2 == source && arg3 == target.PointerInner
 //@   propagates
 // C04: the source expression itself is only passed through where that is allowed
@@ -445,7 +448,7 @@ package builder
 //@   props C03 C13
 // C03: the nested position is always converted through the generator (method lookup + rules): a position without
 // rule at any depth fails the whole method -- it is never skipped or passed through unconverted
-//@   ensures@C03 err == nil ==> reached("gen.Build#1")
+//@   ensures@C03,C04 err == nil ==> reached("gen.Build#1")
 //@   at@C03 call gen.Build#1 assert arg2 == source.PointerInner && arg3 == target.PointerInner
 //@   propagates
 // C07: pointer/underlying steps pass the path on unchanged
@@ -477,7 +480,7 @@ package builder
 //@   props C03 C13
 // C03: the nested position is always converted through the generator (method lookup + rules): a position without
 // rule at any depth fails the whole method -- it is never skipped or passed through unconverted
-//@   ensures@C03 err == nil ==> reached("gen.Build#1")
+//@   ensures@C03,C04 err == nil ==> reached("gen.Build#1")
 //@   at@C03 call gen.Build#1 assert arg2 == source.PointerInner && arg3 == target
 //@   propagates
 // C07: pointer/underlying steps pass the path on unchanged
@@ -492,7 +495,7 @@ package builder
 //@   props C03 C13
 // C03: the nested position is always converted through the generator (method lookup + rules): a position without
 // rule at any depth fails the whole method -- it is never skipped or passed through unconverted
-//@   ensures@C03 err == nil ==> reached("gen.Build#1") || reached("gen.Assign#1")
+//@   ensures@C03,C04 err == nil ==> reached("gen.Build#1") || reached("gen.Assign#1")
 //@   at@C03 call gen.Build#1 assert arg2 == source && arg3 == target.PointerInner
 //@   at@C03 call gen.Assign#1 assert arg3 == source && arg4 == target.PointerInner
 //@   propagates
@@ -553,6 +556,9 @@ package builder
 //@ func Struct.Assign(s; gen, ctx, assignTo, sourceID, source, target, errPath)
 //@   props C03
 //@   propagates
+// C04/C03: a field value reaches the target only through the generator (gen.Assign: method lookup + rules, which
+// copy) or through the configured custom function (gen.CallMethod) -- never by assigning the source expression
+//@   forbid@C04,C03 ToAssignable the struct rule does not assign a source expression itself
 //@   loop@C13 1 invariant GenInv(gen)
 // C01/C03: a target field is only written when it is accessible from the output package
 //@   at@C01 call gen.Assign#1 assert xtype.Accessible(targetField, ctx.OutputPackagePath)
@@ -570,6 +576,10 @@ package builder
 //@           && dynIs[errElmField](arg7[len(errPath)]) && string(unboxed[errElmField](arg7[len(errPath)])) == targetField.Name()
 //@   at@C10,C11 call shouldCheckAgainstZero#1 assert arg1 == nextSource && arg2 == targetFieldType && arg3 == assignTo.Update && !arg4
 //@   at@C10,C11 call shouldCheckAgainstZero#2 assert arg1 == functionCallSourceType && arg2 == targetFieldType && arg3 == assignTo.Update && arg4
+// C10: with the zero-value guard in force, everything the custom function contributes for the field -- its call, the
+// error check that may return, and the assignment -- is inside the guard (a zero source value neither writes the
+// field nor runs a conversion that can fail)
+//@   at@C10 call Block#2 assert seqEq(arg0, callStmt) && len(callStmt) > 0
 // the guard is only asked about a source that exists (map|FUNC with a FUNC that takes no source has none): F12
 //@   at@C10,C13 call shouldCheckAgainstZero#* assert arg1 != nil
 //@   requires@C13 self != nil
@@ -581,6 +591,9 @@ package builder
 //@ func List.Build(l; gen, ctx, sourceID, source, target, path)
 //@   props C03
 //@   propagates
+// C03/C04/C07: the slice is converted by List.Assign for the same pair, source expression and path
+//@   ensures@C03,C04 err == nil ==> reached("l.Assign#1")
+//@   at@C03,C04,C07 call l.Assign#1 assert arg3 == sourceID && arg4 == source && arg5 == target && same(arg6, path)
 // C04: the source expression itself is only passed through where that is allowed
 //@   ensures@C04 err == nil && result1 == sourceID ==> false
 //@   requires@C13 self != nil
